@@ -11,6 +11,7 @@ CONSTANTS
   KeepFlushedBlock = FALSE
   MetaAtomic = FALSE
   StartupIngest = FALSE
+  MetaSkipsEmptyBlock = FALSE
   MaxMeta = 0
   NpDp = 0
 INVARIANTS TypeOK PrefixPerFile NoInvent Rejected InOrder MetaNoInvent CompleteReplay
